@@ -30,9 +30,14 @@ structure St where
 def getD' (l : List Nat) (i : Nat) : Nat := l.getD i 0
 def setL (l : List Nat) (i v : Nat) : List Nat := l.set i v
 
-partial def findSet (par : List Nat) (x : Nat) : Nat :=
-  let px := getD' par x
-  if px = x then x else findSet par px
+/-- `find_set` (fuel = number of keys: a parent chain never revisits a key) -/
+def findSetF (par : List Nat) : Nat → Nat → Nat
+  | 0, x => x
+  | fuel + 1, x =>
+    let px := getD' par x
+    if px = x then x else findSetF par fuel px
+
+def findSet (par : List Nat) (x : Nat) : Nat := findSetF par (par.length + 1) x
 
 /-- boost `disjoint_sets::link` (union by rank) on two roots -/
 def link (s : St) (x y : Nat) : St :=
@@ -150,6 +155,7 @@ def run (p : Nat) (cells : List Cell) (dimMaxFlag : Bool) (minLen : Int) : List 
   let s0 : St := { p := p, dimMax := if dimMaxFlag then dimC + 1 else dimC, minLen := minLen,
                    parent := List.range n, rank := List.replicate n 0, keyOf := (List.range n).map some,
                    repr := [], cam := [], zero := [], alive := [], pairs := [], nextCol := 0 }
+  if s0.dimMax ≤ 0 then [] else     -- `if (dim_max_ <= 0) return;`
   let s := (List.range n).foldl (processCell cells filts) s0
   let vertsKeys := (List.range n).filter fun i => (cells.getD i ⟨[], 0⟩).verts.length = 1
   let inf0 := vertsKeys.filter fun k => getD' s.parent k = k && (lookup s.zero k).isNone
